@@ -26,6 +26,11 @@ def main():
     try:
         br = vlib.build_all()
         proof = vlib.proof_status(prop, br, ctx.rundir)
+        if tier == "thorough" and not proof["problems"]:
+            chk = vlib.coqchk_status(prop)
+            proof["coqchk"] = {"ok": chk["ok"], "axioms": chk["axioms"]}
+            if not chk["ok"]:
+                proof["problems"].append("coqchk failed or reports unsafe features / foreign axioms: " + chk["tail"][-600:])
         cov = {}
         run_err = None
         if a.replay:
